@@ -182,6 +182,12 @@ inductive AppendErr where
   | height | prevHash | txRoot | unsigned | badSig
 deriving DecidableEq, Repr
 
+/-- "Compute tx_root if not set" in `Chain::append` (done after the block was signed) -/
+def fixTxRoot (C : Crypto) (b : Block) : Block :=
+  if b.header.txRoot = C.zero ∧ b.txs ≠ [] then
+    { b with header := { b.header with txRoot := txRoot C b.txs } }
+  else b
+
 /-- in-memory part of `Chain` plus the store it writes to -/
 structure ChainSt where
   store : List (SKey × SVal)
@@ -196,10 +202,7 @@ def append (C : Crypto) (reg : Option (List (List Nat × Nat))) (c : ChainSt) (b
   if b.header.height ≠ expected then .error .height
   else if b.header.prevHash ≠ c.tip then .error .prevHash
   else
-    let b : Block :=
-      if b.header.txRoot = C.zero ∧ b.txs ≠ [] then
-        { b with header := { b.header with txRoot := txRoot C b.txs } }
-      else b
+    let b : Block := fixTxRoot C b
     if b.header.txRoot ≠ txRoot C b.txs then .error .txRoot
     else if expected > 1 ∧ b.header.signature = [] then .error .unsigned
     else if expected > 1 ∧ regSigOk C reg b.header = false then .error .badSig
